@@ -142,4 +142,44 @@ theorem check_ok : check f32ToRat trie table 3 rng = true := by decide +kernel
 theorem represents : Represents f32ToRat trie (tableOf table 3) rng := check_sound _ _ _ _ _ check_ok
 end ExampleQuantArray
 
+
+namespace ExampleBuilt
+/-- the example model as a bit table (reversed ids; float bits as the real builder stored them, incl. the blank `b c`) -/
+def bt : BT := [
+  ([0], (3221225472, 2147483648)),
+  ([1], (3267756032, 3204448256)),
+  ([3], (3214934016, 2147483648)),
+  ([2], (3208642560, 3196059648)),
+  ([5], (3217031168, 3187671040)),
+  ([4], (3212836864, 2147483648)),
+  ([2, 1], (3204448256, 3196059648)),
+  ([5, 2], (3206545408, 3200253952)),
+  ([3, 5], (3210739712, 2147483648)),
+  ([4, 2], (3213885440, 2147483648)),
+  ([4, 5], (3213885440, 2147483648)),
+  ([5, 2, 1], (3196059648, 0)),
+  ([4, 5, 2], (3200253952, 0))]
+def built : Trie := ofTable bt 6 3 (KV.Binary.loadLayout (.trie false false) plainCfg (countsOf bt 6 3)).search
+
+/-- the search region starts at this file offset (header 136 + sorted vocabulary 56) -/
+theorem search_offset : (KV.Binary.loadLayout (.trie false false) plainCfg (countsOf bt 6 3)).search = 192 := by decide +kernel
+
+/-- **non-vacuity of `Represents`, constructively**: the trie built from the table by the pure fold `ofTable` (records inserted
+level by level in sorted order, as `RecursiveInsert`/`WriteEntries` do) represents the table of the pruned example model
+(13 entries, one of them the blank `b c` that SRI-style pruning makes necessary). -/
+theorem built_check : check f32ToRat built (ftOf f32ToRat bt 3) 3 (rngOf bt 6) = true := by decide +kernel
+theorem built_represents : Represents f32ToRat built (tableOf (ftOf f32ToRat bt 3) 3) (rngOf bt 6) :=
+  check_sound _ _ _ _ _ built_check
+
+/-- … and the memory it builds is, byte for byte, the search region of the file the real `build_binary trie` wrote for the
+same model (everything from offset 192 on; header and vocabulary are not the builder's business). -/
+theorem built_eq_real_file : built.mem = (ExamplePlain.fileMem >>> (8 * 192)) <<< (8 * 192) := by decide +kernel
+
+/-- hence FullScore over the built trie = FullScore over the table, for all valid states and words -/
+theorem built_refines (s : State) (w : Word) (hw : w < 6) (hs : ∀ x ∈ s.words.take s.length, x < 6) :
+    (fullScore (search f32ToRat built) s w).1.prob = (fullScore (tableSearch (tableOf (ftOf f32ToRat bt 3) 3)) s w).1.prob ∧
+    (fullScore (search f32ToRat built) s w).2 = (fullScore (tableSearch (tableOf (ftOf f32ToRat bt 3) 3)) s w).2 :=
+  trie_refines_of_check f32ToRat built _ 3 _ built_check (by decide) s w hw hs
+end ExampleBuilt
+
 end KV.C03Trie
